@@ -64,13 +64,18 @@ def install_nestle_tap():
                                npdim=npdim, options=dict(options)),
                 'records': [], 'files': {}}
         RECORDER.calls.append(call)
+        work_v, work_u = np.empty(ndim), np.empty(ndim)
         for k, entry in enumerate(RECORDER.script):
             rec = {'entry': k, 'u': None, 'theta': None, 'prior_exc': None, 'loglike': None, 'loglike_exc': None,
                    'loglike_type': None}
             call['records'].append(rec)
-            v = np.empty(ndim)
+            v = work_v if RECORDER.reuse_buffers else np.empty(ndim)
             if 'u' in entry:
-                u = np.array(entry['u'], dtype=float)
+                if RECORDER.reuse_buffers:
+                    work_u[:] = np.array(entry['u'], dtype=float)
+                    u = work_u
+                else:
+                    u = np.array(entry['u'], dtype=float)
                 rec['u'] = u.tolist()
                 try:
                     v[:] = prior_transform(u)
